@@ -588,6 +588,8 @@ def run(chk, facts, info):
     rule_r15(chk, facts)
     from . import c03_optfield
     c03_optfield.run(chk, facts)
+    from . import c03_counted
+    c03_counted.run(chk, facts)
     chk.rule('C03-R13', 'in p2bin, p2hex, alink and dasl every ChkIO() call stands directly under a failure test of the '
              'operation it checks or is preceded on every path by errno = 0: a well-formed input is not rejected with '
              'an I/O error because of a stale errno', min_instances=100)
